@@ -24,6 +24,7 @@ CHUNK = 60  # 4 chunks
 POS = {"first": 5, "middle": 130, "last": 235}
 
 DATA_FAULTS = ["nan_ra", "inf_dec", "nan_weight", "inf_redshift", "pid_-1", "pid_32768", "pid_40000", "pid_nan", "pid_inf",
+               "pid_-1_i2", "pid_-3_i1",
                "fail_worker", "fail_writer", "fail_reader"]
 STRUCT_FAULTS = ["missing_column", "unequal_length", "unequal_length_longer", "unequal_length_longer_patch", "no_patch_method", "empty_centre_first", "empty_centre_middle",
                  "empty_centre_last"]
@@ -134,6 +135,12 @@ class C09(Check):
         # a patch whose weights sum to exactly zero (masked region): creation may refuse or succeed, but
         # identically for every worker count and never by blocking
         out.append(dict(fault="zero_weight_patch", pos="-", source="dataframe", mode="index"))
+        # a failing creation over an existing catalog (overwrite=True): the old completeness marker must not survive it
+        for pos in (["middle"] if q else ["first", "middle", "last"]):
+            out.append(dict(fault="overwrite_valid_nan_ra", pos=pos, source="dataframe", mode="centres"))
+        # the cache location runs full while patch data is written (file-size limit): refuse, never return a shortened catalog
+        for lim in (["total-1", "half"] if q else ["total-1", "total-8", "half", "record-boundary", "tiny"]):
+            out.append(dict(fault=f"fsize_{lim}", pos="-", source="dataframe", mode="index"))
         # fault-free controls whose last chunk holds fewer records than there are workers
         out.append(dict(fault="none", pos="short_tail", source="dataframe", mode="centres"))
         out.append(dict(fault="none", pos="short_tail", source="dataframe" if q else "hdf5", mode="index"))
@@ -190,6 +197,12 @@ class C09(Check):
         violations = []
         must_raise = fault not in ("none", "overwrite_valid", "zero_weight_patch")
         either = fault == "zero_weight_patch"
+        fsize_limit = None
+        if fault.startswith("fsize_"):
+            # patch files: one header byte + 80 records of 32 bytes (ra, dec, weights, redshifts)
+            total = 1 + (n // 3) * 32
+            fsize_limit = {"total-1": total - 1, "total-8": total - 8, "half": 1 + 32 * (n // 6) + 5, "record-boundary": 1 + 32 * (n // 6),
+                           "tiny": 40}[fault.split("_", 1)[1]]
         target = work / "cache"
         kwargs = dict(ra_name="ra", dec_name="dec", weight_name="w", redshift_name="z", chunksize=chunk,
                       max_workers=nw, overwrite=False)
@@ -208,8 +221,14 @@ class C09(Check):
             # a float index column with a missing value (what pandas makes of an integer column with a gap)
             cols["patch"] = cols["patch"].astype("f8")
             cols["patch"][row] = np.nan if fault == "pid_nan" else np.inf
+        elif fault in ("pid_-1_i2", "pid_-3_i1"):
+            # compact integer index columns (int16 / int8) with a negative entry
+            cols["patch"] = cols["patch"].astype("i2" if fault.endswith("i2") else "i1")
+            cols["patch"][row] = int(fault.split("_")[1])
         elif fault.startswith("pid_"):
             cols["patch"][row] = int(fault.split("_")[1])
+        elif fault == "overwrite_valid_nan_ra":
+            cols["ra"][row] = np.nan
         elif fault == "zero_weight_patch":
             cols["w"][cols["patch"] == 1] = 0.0
         elif fault in ("fail_worker", "fail_writer", "fail_reader"):
@@ -230,10 +249,10 @@ class C09(Check):
 
         # ---- prior disk state --------------------------------------------------------
         pre_valid_digest = None
-        if fault in ("exists_valid_no_overwrite", "overwrite_valid"):
+        if fault in ("exists_valid_no_overwrite", "overwrite_valid", "overwrite_valid_nan_ra"):
             self._create_valid(target)
             pre_valid_digest = tree_digest(target)
-            kwargs["overwrite"] = fault == "overwrite_valid"
+            kwargs["overwrite"] = fault != "exists_valid_no_overwrite"
         elif fault == "overwrite_empty_dir":
             target.mkdir()
             kwargs["overwrite"] = True
@@ -305,7 +324,18 @@ class C09(Check):
                         return orig_pp(self_, patches)
 
                     ycat.CatalogWriter.process_patches = failing_pp
-            if source == "dataframe":
+            if fsize_limit is not None:
+                import resource
+                import signal
+
+                signal.signal(signal.SIGXFSZ, signal.SIG_IGN)
+                _soft, hard = resource.getrlimit(resource.RLIMIT_FSIZE)
+                resource.setrlimit(resource.RLIMIT_FSIZE, (fsize_limit, hard))
+                try:
+                    cat = Catalog.from_dataframe(target, pd.DataFrame(cols), **kw)
+                finally:
+                    resource.setrlimit(resource.RLIMIT_FSIZE, (hard, hard))
+            elif source == "dataframe":
                 cat = Catalog.from_dataframe(target, pd.DataFrame(cols), **kw)
             elif source in ("hdf5", "fits", "parquet"):
                 cat = Catalog.from_file(target, hpath, **kw)
